@@ -449,8 +449,8 @@ func loadKnown(path string) *Known {
 
 // tier budgets: scenarios per worker
 func budget(prop, tier string) (count int, deadline float64) {
-	q := map[string]int{"C01": 5, "C02": 6, "C03": 6, "C04": 6, "C05": 30, "C06": 6, "C07": 20, "C08": 30, "C09": 150, "C10": 150, "C11": 20, "C12": 8, "C13": 8, "C14": 8, "C15": 150, "C16": 100, "C18": 6, "C19": 40}
-	t := map[string]int{"C01": 80, "C02": 60, "C03": 80, "C04": 60, "C05": 150, "C06": 60, "C07": 300, "C08": 500, "C09": 3000, "C10": 3000, "C11": 300, "C12": 80, "C13": 80, "C14": 80, "C15": 3000, "C16": 2000, "C18": 60, "C19": 1000}
+	q := map[string]int{"C01": 5, "C02": 6, "C03": 6, "C04": 6, "C05": 30, "C06": 6, "C07": 20, "C08": 30, "C09": 150, "C10": 150, "C11": 20, "C12": 8, "C13": 30, "C14": 8, "C15": 150, "C16": 100, "C18": 6, "C19": 40}
+	t := map[string]int{"C01": 80, "C02": 60, "C03": 80, "C04": 60, "C05": 150, "C06": 60, "C07": 300, "C08": 500, "C09": 3000, "C10": 3000, "C11": 300, "C12": 80, "C13": 400, "C14": 80, "C15": 3000, "C16": 2000, "C18": 60, "C19": 1000}
 	if tier == "thorough" {
 		if n, ok := t[prop]; ok {
 			return n, 1500
